@@ -575,3 +575,7 @@ fn vint_encode_and_decode_test() {
     check(-i64::MAX);
     check(i64::MIN)
 }
+
+// Verification hook (inert unless built by `cargo kani`, which sets --cfg kani).
+#[cfg(kani)]
+mod verif_kani;
